@@ -134,6 +134,28 @@ VH_AREA(circq) {
                     out_q("circ detcoords " + w + " " + std::to_string(id) + " " + r, "ok");
                     st.hit(r == "err" ? "detcoords.rejected" : "detcoords.value");
                 }
+                // several indices in one query (the loop-skipping code keeps state between them): every returned entry is judged
+                // like a single query, and exactly the requested entries must come back
+                if (nd >= 2 && nd < 100000) {
+                    for (int rep = 0; rep < 3; rep++) {
+                        std::set<uint64_t> want;
+                        size_t cnt = 2 + rng.below(4);
+                        for (size_t i = 0; i < cnt; i++) want.insert(rng.chance(0.3) ? (rng.chance(0.5) ? nd - 1 : 0) : rng.below(nd));
+                        try {
+                            auto m = c.get_detector_coordinates(want);
+                            if (m.size() != want.size()) out_x("get_detector_coordinates returned " + std::to_string(m.size()) + " entries for " + std::to_string(want.size()) + " indices");
+                            for (auto &kv : m) {
+                                if (!want.count(kv.first)) { out_x("get_detector_coordinates returned an index that was not asked for"); continue; }
+                                std::string r = std::to_string(kv.second.size());
+                                for (double d : kv.second) r += " " + std::to_string(dbits(d));
+                                out_q("circ detcoords " + w + " " + std::to_string(kv.first) + " " + r, "ok");
+                            }
+                            st.hit("detcoords.multi_index_queries");
+                        } catch (const std::exception &e) {
+                            out_x(std::string("get_detector_coordinates threw on valid indices: ") + e.what());
+                        }
+                    }
+                }
                 auto qc = c.get_final_qubit_coords();
                 std::string qq = "circ qcoords " + w + " " + std::to_string(qc.size());
                 for (auto &kv : qc) {
